@@ -76,16 +76,24 @@ def run(ctx):
     r1.check(sorted_ok, f"{m.rel}:Task._calc_hash:sorted(hash_includes)", "hash_includes are not canonicalised with sorted(): their order would affect the hash", m.rel, ch.lineno)
     # per-return flow of fullname + the variable parts
     var_fields: dict[str, set[str]] = {}
-    assigns = [n for n in ast.walk(ch) if isinstance(n, ast.Assign)]
+    # (target names, flowing expression): assignments, augmented assignments and in-place growth of a local list (`v.append(E)`, `v.extend(E)`)
+    flows_into: list[tuple[list, ast.AST]] = []
+    for n in ast.walk(ch):
+        if isinstance(n, ast.Assign):
+            flows_into.append(([t for t in n.targets if isinstance(t, ast.Name)], n.value))
+        elif isinstance(n, ast.AugAssign) and isinstance(n.target, ast.Name):
+            flows_into.append(([n.target], n.value))
+        elif isinstance(n, ast.Call) and isinstance(n.func, ast.Attribute) and n.func.attr in ("append", "extend", "insert", "add", "update") and isinstance(n.func.value, ast.Name) and n.args:
+            flows_into.append(([n.func.value], n.args[-1]))
     changed = True
     while changed:
         changed = False
-        for a in assigns:
-            fr = self_reads(a.value)
-            for v in names_in(a.value):
+        for tgts, val in flows_into:
+            fr = self_reads(val)
+            for v in names_in(val):
                 fr |= var_fields.get(v, set())
-            for t in a.targets:
-                if isinstance(t, ast.Name) and not fr <= var_fields.get(t.id, set()):
+            for t in tgts:
+                if not fr <= var_fields.get(t.id, set()):
                     var_fields[t.id] = var_fields.get(t.id, set()) | fr
                     changed = True
     nret = 0
